@@ -76,7 +76,18 @@ End C13.
 Theorem C13_unpack_pack : forall (A : Type) (n : nat) (M : list (list A)), symm n M -> unpack n (pack M) = M.
 Proof. exact (@C14_text.unpack_pack). Qed.
 
+(* REFUTED (witness by computation): a refused export does NOT always leave the disk untouched.  For the graph
+   [ex_partial] (an SE(2) odometry edge followed by an R^2 odometry edge) export raises NotImplementedError and the
+   file already holds 5 lines (4 vertices + the first edge): a truncated graph that from_g2o loads without complaint. *)
+Theorem C13_refusal_leaves_no_file_refuted :
+  exists g : graph Z,
+    wf Z g /\
+      (forall print print_id, export Z print print_id (Z.eqb 0) Z.eqb g = Error ENotImplemented) /\
+      (forall print print_id, exists ls, export_file Z print print_id (Z.eqb 0) Z.eqb g = Some ls /\ List.length ls = 5).
+Proof. exact refusal_leaves_no_file_refuted. Qed.
+
 Print Assumptions C13_roundtrip.
 Print Assumptions C13_cycles.
 Print Assumptions C13_refuses.
 Print Assumptions C13_unpack_pack.
+Print Assumptions C13_refusal_leaves_no_file_refuted.
